@@ -95,6 +95,9 @@ where
                 Escape::Spaces => {
                     if c == b' ' || c == b'\n' {
                         out.extend_from_slice(b"\\ ");
+                    } else if c == b'\\' {
+                        // arguments of control lines are user supplied text too
+                        out.extend_from_slice(b"\\\\");
                     } else {
                         out.push(c);
                     }
